@@ -34,6 +34,10 @@ def make_spec(task):
     for i, t in enumerate(spec['transitions']):
         t['priority'] = (0, 1, -1, 5)[i % 4]
         if i % 2 == 0:
+            t['guard'] = 'x in {1, 2} or {} == dict()'      # code is opaque text for the importer, braces included
+        if i % 3 == 0 and t.get('event'):
+            t['event'] = '{%s}' % t['event']
+        if i % 2 == 0:
             t['pre'] = ['True']
     for i, s in enumerate(spec['states']):
         if i % 2 == 0:
